@@ -572,3 +572,47 @@ def check_flush(body, out):
     if nflush == 0:
         out.add('FL', body.path, 'flush-missing', '%s:%d' % (body.file, body.line), False,
                 'no return of encode takes its value from Write::flush')
+
+
+def _ret_def_transfer(body, b, cur):
+    blk = body.blocks[b]
+    for si, s in enumerate(blk['st']):
+        if s['k'] == 'assign' and s['pl']['l'] == 0 and not s['pl']['p']:
+            cur = {(b, si)}
+    t = blk['term']
+    if t['k'] == 'call' and t['dest']['l'] == 0 and not t['dest']['p']:
+        cur = {(b, 'term')}
+    return cur
+
+
+def ret_defs_via(body, via_bb):
+    """definitions of _0 that can reach a `return` along a path that passes through block via_bb:
+    returns {return_bb: set(defs)}"""
+    # global reaching defs at entry of every block
+    IN = {0: frozenset(['entry'])}
+    work = [0]
+    while work:
+        b = work.pop()
+        out = frozenset(_ret_def_transfer(body, b, set(IN[b])))
+        for s in body.succ(b):
+            new = IN.get(s, frozenset()) | out
+            if new != IN.get(s):
+                IN[s] = new
+                work.append(s)
+    if via_bb not in IN:
+        return {}
+    # propagate only from via_bb
+    IN2 = {via_bb: IN[via_bb]}
+    work = [via_bb]
+    res = {}
+    while work:
+        b = work.pop()
+        out = frozenset(_ret_def_transfer(body, b, set(IN2[b])))
+        if body.term(b)['k'] == 'return':
+            res[b] = res.get(b, frozenset()) | out
+        for s in body.succ(b):
+            new = IN2.get(s, frozenset()) | out
+            if new != IN2.get(s):
+                IN2[s] = new
+                work.append(s)
+    return res
